@@ -15,6 +15,7 @@ EXTENDS CodecCore
 \* The families of descriptions are given by the action PickAny of the model module (MC_Codec.tla): it is written
 \* as nested existential quantification so that TLC enumerates the descriptions without first building their set.
 
+CONSTANTS Wrong         \* TRUE: value alphabets are widened to the wrong (C04): out of range, too long/short, wrongly typed
 VARIABLES phase, desc
 vars == <<phase, desc>>
 
@@ -27,7 +28,9 @@ DictV(d) == [t |-> "dict", v |-> d]
 
 ---------------------------------------------------------------------------
 (* value alphabets *)
-DctValues(dct) ==
+Bad(n) == [t |-> "bad", name |-> n]          \* a value of the wrong Python type (the harness supplies the object)
+BadValues == {Bad("str"), Bad("float"), Bad("bytes"), Bad("none"), Bad("list"), Bad("dict")}
+RightValues(dct) ==
     CASE dct.base = "uint" -> (IF dct.enc = "NONE" THEN {IntV(0), IntV(5), Tok("MAXU")} ELSE {IntV(0), IntV(9), IntV(12)})
       [] dct.base = "int" -> {IntV(0), IntV(-1), IntV(3), Tok("MINS1")}
       [] dct.base = "f32" -> {FloatV(<<63, 128, 0, 0>>), FloatV(<<192, 73, 15, 219>>)}
@@ -35,6 +38,16 @@ DctValues(dct) ==
       [] dct.base = "bytes" -> (IF dct.k = "std" THEN {BytesV([i \in 1..(dct.bits \div 8) |-> 16 + i]), BytesV([i \in 1..(dct.bits \div 8) |-> 255])}
                                ELSE {BytesV(<<>>), BytesV(<<18>>), BytesV(<<18, 52, 86>>)})
       [] OTHER -> {TextV(<<>>), TextV(<<65>>), TextV(<<65, 228>>), TextV(<<8364, 66>>)}
+\* centred on the representability boundaries: every integer around the n-bit range for small n, the boundaries beyond
+WrongValues(dct) ==
+    BadValues \cup
+    CASE dct.base \in {"uint", "int"} ->
+           (IF dct.k = "std" /\ dct.bits <= 8 THEN {IntV(k) : k \in (-Pow2(dct.bits) - 1)..(Pow2(dct.bits) + 1)}
+            ELSE {IntV(0), IntV(-1), IntV(1), Tok("MAXU"), Tok("OVERU"), Tok("MAXS"), Tok("OVERS"), Tok("MINS"), Tok("UNDERS"), Tok("MINS1")})
+      [] dct.base \in {"f32", "f64"} -> RightValues(dct)
+      [] dct.base = "bytes" -> {BytesV([i \in 1..n |-> 16 + i]) : n \in 0..4}
+      [] OTHER -> {TextV(<<>>), TextV(<<65>>), TextV(<<65, 228>>), TextV(<<8364, 66>>), TextV(<<65, 66, 67>>), TextV(<<65, 66, 67, 68, 69>>)}
+DctValues(dct) == IF Wrong THEN WrongValues(dct) ELSE RightValues(dct)
 
 RECURSIVE DopValues(_), Assignments(_, _)
 ParamValues(p) ==
@@ -42,7 +55,7 @@ ParamValues(p) ==
       [] OTHER -> {Missing}
 \* all assignments: each settable parameter supplied with a value of its alphabet or omitted
 Assignments(ps, i) ==
-    IF i > Len(ps) THEN {<<>>}
+    IF i > Len(ps) THEN (IF Wrong THEN {<<>>, <<<<"zz_unknown", IntV(1)>>>>} ELSE {<<>>})
     ELSE LET rest == Assignments(ps, i + 1) IN
          {IF IsMissing(o) THEN r ELSE <<<<ps[i].n, o>>>> \o r : o \in ParamValues(ps[i]), r \in rest}
 ItemLists(sd) == LET vs == DopValues(sd) IN
